@@ -10,4 +10,13 @@ def regen_all():
     out["lifecycle"] = vlib.run_tool("extract", ["-repo", vlib.REPO, "-out", gen, "-what", "lifecycle"])
     out["itertests"] = vlib.run_tool("extract", ["-repo", vlib.REPO, "-out", gen, "-what", "itertests"])
     out["opcodes"] = vlib.run_tool("extract", ["-repo", vlib.REPO, "-out", gen, "-what", "opcodes"])
+    out["inventories"] = regen_inventories()
     return out
+
+def regen_inventories():
+    """type-checked inventories; the source importer needs /repo as working directory"""
+    import os
+    gen = os.path.join(vlib.COQ, "Gen")
+    with vlib.Lock(os.path.join(vlib.GO, ".inv.lock")):
+        return vlib.sh([os.path.join(vlib.GO, "bin", "extract"), "-repo", vlib.REPO, "-out", gen, "-what", "inventories"],
+                       cwd=vlib.REPO, env=vlib.GOENV, timeout=600)
